@@ -49,6 +49,10 @@ var directedCases = []directed{
 	{"crash-after-fail", g3(none, [][]int{{1}, {1}, {2}}, allUndo), "E F1ok F2err R E"},
 	// graceful stop turns an error into a retry
 	{"stop-err-retried", g3(none, [][]int{{0}, {0}, {0}}, allUndo), "E F1ok S F2err F3ok R E"},
+	// an undo chain two levels deep blocked by a task in Wait: the change reports Wait, not Undo
+	{"undo-chain-blocked-by-wait", g3([][]int{{}, {1}, {2}}, [][]int{{0}, {0}, {0}}, allUndo), "E F1ok E F2ok E A F3ok E F3wait E E W3 E"},
+	// a do chain blocked by a task in Wait
+	{"do-chain-blocked-by-wait", g3([][]int{{}, {1}, {2}}, [][]int{{0}, {0}, {0}}, allUndo), "E F1wait E E W1 E"},
 	// graceful stop while an undo handler is in flight: its error is a cancellation, the undo is re-run
 	{"stop-undo-err-retried", g3([][]int{{}, {1}, {}}, [][]int{{0}, {0}, {0}}, allUndo), "E F1ok F3ok E F2err E S F1err R E"},
 	{"stop-undo-err-retried-2", g3([][]int{{}, {1}, {1}}, [][]int{{0}, {0}, {0}}, allUndo), "E F1ok E F2ok F3err E S F2err F1err R E"},
